@@ -46,8 +46,11 @@ class C14(Check):
         "accessor may raise or return exactly what the local accessor "
         "returns",
         "info with mixed sharded/unsharded scales is not generated",
-        "recovery after faults on the same accessor is recorded, not "
-        "asserted (the property promises no recovery)",
+        "bounded recovery: once the faults stop, an accessor that was built "
+        "fault-free must read a stored chunk again ('everything stored "
+        "earlier remains readable'); for accessors built while faults were "
+        "flowing (which may legitimately have been dispatched to the plain "
+        "reader) recovery is only recorded",
     ]
     components = {
         "real": ["http_accessor", "sharded_http_accessor", "sharded_base "
@@ -58,7 +61,7 @@ class C14(Check):
         "simulated": ["HTTP transport adapter", "static web server model "
                       "(nginx rules, Range)", "raw file I/O (SimFS)"],
     }
-    tiers = {"quick": dict(runs=5000, budget=60),
+    tiers = {"quick": dict(runs=4000, budget=60),
              "thorough": dict(runs=40000, budget=720)}
     expected_probes = ["sharded_fetch_ok", "legacy_pair_read", "gz_served",
                       "partial_206", "deep_alias", "absent_plain_dae",
@@ -369,6 +372,40 @@ class C14(Check):
                                 key=f"C14/retry-returns-data/{scn['kind']}")
                 else:
                     res.probe("not_recovered_after_fault")
+                    if (not faults["fresh_accessor"] and p in stored
+                            and len(stored[p]) > 0 and s2 == "ok"):
+                        # the accessor was built fault-free, the faults have
+                        # stopped, the chunk is stored: "everything stored
+                        # earlier remains readable"
+                        res.violate(
+                            "C14/not-readable-after-faults",
+                            f"{where}: once the faults stopped, the same "
+                            f"accessor still cannot read the stored chunk: "
+                            f"{excname(again)}: {again!s:.80}",
+                            key=f"C14/not-readable-after-faults/"
+                            f"{scn['kind']}/{excname(again)}")
+                # whatever happened, the accessor must not have been left in
+                # a state where later reads return wrong data: info and one
+                # other chunk through the same (possibly half-failed) handle
+                s4, inf = sut(a2.fetch_file, "info")
+                s5, linf = sut(local.fetch_file, "info")
+                if s4 == "ok" and not (s5 == "ok" and inf == linf):
+                    res.violate("C14/fault-returns-data",
+                                f"{where}: a later fetch_file('info') on the "
+                                f"same accessor returned {len(inf)} B that "
+                                "are not the local info",
+                                key=f"C14/after-fault-info/{scn['kind']}")
+                others = [q for q in plist if q != p and q in stored
+                          and len(stored[q]) > 0]
+                if others and not res.violations:
+                    q = others[(plist.index(p) * 7) % len(others)]
+                    s6, oth = sut(a2.fetch_chunk, q[0], positions[q])
+                    if s6 == "ok" and oth != stored[q]:
+                        res.violate("C14/fault-returns-data",
+                                    f"{where}: a later fetch of chunk {q} on "
+                                    f"the same accessor returned {len(oth)} "
+                                    "B that are not the stored bytes",
+                                    key=f"C14/after-fault-chunk/{scn['kind']}")
         return self._fin(res, log, fs, server, scn, flags, outcomes, compared)
 
     def _absence(self, plan, exc, was_stored):
